@@ -166,7 +166,7 @@ def failed_append_tie(rep, cases):
         nwrites = raw.get(bi, 0) - sum(1 for x in calls if x.kind != "write")
         o = c.ops[opi]
         return idx == nwrites and (o[0] == "del" or len(o[2]) < 8192)
-    shards = chunks(sel, NCPU)
+    shards = chunks(sel, max(NCPU, len(sel) // 60))          # at most ~60 cases per coqc process
     terms = ["render_cases [%s]" % "; ".join(term(c, opi) for c, opi in sh) for sh in shards]
     res, logs = coq_eval("C20", "Store.Engine Store.Render", terms)
     for l in logs[:1]:
